@@ -73,9 +73,10 @@ func opSig(h map[byte]int) string {
 
 func init() {
 	fw.Register(&fw.Property{
-		ID:     "C01",
-		Level:  "exploration",
-		Jitter: true,
+		ID:         "C01",
+		Level:      "exploration",
+		Jitter:     true,
+		RaceSample: true,
 		Rule: "seeded SAM files (1-8 queries, 1-3 records per query cut from a true alignment with gaps/overlaps, optional conflicting record, all CIGAR operators, interleaved unmapped/secondary records) x pad x window x wrap x threads; " +
 			"a case is non-trivial if it has an operator other than M, a multi-record query, or a window/pad/wrap option; distinct = distinct (operator set, max records per query, overlap kind, flank kinds, option tuple)",
 		Assumptions: []string{
